@@ -1,4 +1,4 @@
-import HidVerif.Proofs.WriteIntSpec
+import HidVerif.Proofs.WriteArrays
 /-!
 # C17 — the write family prints every value correctly
 
@@ -37,5 +37,71 @@ belong to the frame the caller reserved for the call (`RA` + one word argument),
 with more than `w` digits the routine writes below its own frame. -/
 theorem write_int_buffer_exceeds_frame : ∃ v, v < 256 ^ 2 ∧ (digits (absW (256 ^ 2) v)).length > 2 :=
   ⟨12345, by decide, by simp [absW, digits]⟩
+
+/-- `write(string)`: with the pointer to the length-prefixed constant in `[fp-2w]`, the routine
+emits exactly the `k` bytes that follow the length word — for every length `0 ≤ k < 2^(8w-1)`,
+every byte content — returns to the caller, and changes nothing in state memory outside the
+register block (`Same … 0 0`: every byte at an address `≥ 5w` is unchanged, sizes equal). -/
+theorem write_string_correct (p : Prog) (B : Nat) (hp : Placed p B)
+    (m : Mem) (F s k ra r0 r1 r2 : Nat)
+    (hk : k < 256 ^ p.w / 2) (hs : s + p.w + k < 256 ^ p.w) (hssz : s + p.w + k ≤ p.const.size)
+    (hF : 6 * p.w ≤ F) (hFM : F < 256 ^ p.w) (hFsz : F ≤ m.size)
+    (hr : Regs p.w m F r0 r1 r2)
+    (hptr : m.readLE (F - 2 * p.w) p.w = s) (hlen : p.const.readLE s p.w = k)
+    (hra : m.readLE (F - p.w) p.w = ra) :
+    ∃ m', Reach (sphinx p) ⟨B + off_write_string, m⟩ (outs (bytesAt p.const (s + p.w) k)) ⟨ra, m'⟩ ∧
+      Same p.w m m' 0 0 :=
+  write_string_spec p B hp m F s k ra r0 r1 r2 hk hs hssz hF hFM hFsz hr hptr hlen hra
+
+/-- `write(const byte[])`: address into the const section in `[fp-3w]`, length in `[fp-2w]`. -/
+theorem write_const_byte_array_correct (p : Prog) (B : Nat) (hp : Placed p B)
+    (m : Mem) (F a k ra r0 r1 r2 : Nat)
+    (hk : k < 256 ^ p.w / 2) (ha : a + k < 256 ^ p.w) (hasz : a + k ≤ p.const.size)
+    (hF : 6 * p.w ≤ F) (hFM : F < 256 ^ p.w) (hFsz : F ≤ m.size)
+    (hr : Regs p.w m F r0 r1 r2)
+    (haddr : m.readLE (F - 3 * p.w) p.w = a) (hlen : m.readLE (F - 2 * p.w) p.w = k)
+    (hra : m.readLE (F - p.w) p.w = ra) :
+    ∃ m', Reach (sphinx p) ⟨B + off_write_const_byte_array, m⟩ (outs (bytesAt p.const a k)) ⟨ra, m'⟩ ∧
+      Same p.w m m' 0 0 :=
+  write_const_byte_array_spec p B hp m F a k ra r0 r1 r2 hk ha hasz hF hFM hFsz hr haddr hlen hra
+
+/-- `write(byte[])` for an array in the state section (stack or global). The bytes printed are
+those of the *initial* memory: the routine does not disturb the array while printing it. -/
+theorem write_state_byte_array_correct (p : Prog) (B : Nat) (hp : Placed p B)
+    (m : Mem) (F a k ra r0 r1 r2 : Nat)
+    (hk : k < 256 ^ p.w / 2) (ha : a + k < 256 ^ p.w) (h5 : 5 * p.w ≤ a) (hasz : a + k ≤ m.size)
+    (hF : 6 * p.w ≤ F) (hFM : F < 256 ^ p.w) (hFsz : F ≤ m.size)
+    (hr : Regs p.w m F r0 r1 r2)
+    (haddr : m.readLE (F - 3 * p.w) p.w = a) (hlen : m.readLE (F - 2 * p.w) p.w = k)
+    (hra : m.readLE (F - p.w) p.w = ra) :
+    ∃ m', Reach (sphinx p) ⟨B + off_write_state_byte_array, m⟩ (outs (bytesAt m a k)) ⟨ra, m'⟩ ∧
+      Same p.w m m' 0 0 :=
+  write_state_byte_array_spec p B hp m F a k ra r0 r1 r2 hk ha h5 hasz hF hFM hFsz hr haddr hlen hra
+
+/-- `write(bool)`: prints `false` for the byte 0 and `true` for any other byte. -/
+theorem write_bool_correct (p : Prog) (B : Nat) (hp : Placed p B)
+    (m : Mem) (F ra r0 r1 r2 : Nat)
+    (hF : 6 * p.w ≤ F) (hFM : F < 256 ^ p.w) (hFsz : F ≤ m.size)
+    (hr : Regs p.w m F r0 r1 r2) (hra : m.readLE (F - p.w) p.w = ra) :
+    ∃ m', Reach (sphinx p) ⟨B + off_write_bool, m⟩ (outs (boolText (m.rd (F - p.w - 1)))) ⟨ra, m'⟩ ∧
+      Same p.w m m' 0 0 :=
+  write_bool_spec p B hp m F ra r0 r1 r2 hF hFM hFsz hr hra
+
+/-- the specification text really is `false` / `true` -/
+example : (boolText 0).map Char.ofNat = "false".toList ∧ (boolText 1).map Char.ofNat = "true".toList := by decide
+
+/-- the number of bytes emitted is exactly the length (no terminator, no padding) -/
+theorem bytesAt_length (m : Mem) (a k : Nat) : (bytesAt m a k).length = k := by
+  induction k generalizing a with
+  | zero => rfl
+  | succ k ih => simp [bytesAt, ih]
+
+/-- `write(byte)` and the newline of `writeln` are lowered to a single `yield` (checked by the
+conformance pass on every compiled program); one `yield x` emits exactly the low byte of `x`
+and changes nothing. -/
+theorem yield_exact (p : Prog) (pc : Nat) (m : Mem) (a : Arg) (x : Nat)
+    (hc : p.code[pc]? = some (.yld a)) (ha : evalArg p ⟨pc, m⟩ a = some x) :
+    Reach (sphinx p) ⟨pc, m⟩ [Ev.out (x % 256)] ⟨pc + 1, m⟩ := by
+  simpa [evl] using Reach.of_next (sys := sphinx p) (step_yld (m := m) hc ha)
 
 end HidVerif.Props.C17
